@@ -63,13 +63,38 @@ def lp_check(ctx, c, tab):
 def run(ctx, proof):
     if ctx.quick:
         plan = [(2, 3, "all"), (3, 6, "all"), (4, 4, 12), (5, 2, 6), (6, 1, 2)]
-        hplan = [(3, 20, 12), (4, 12, 14)]
+        hplan = [(3, 20, 12), (4, 12, 14), (9, 1, 8)]
     else:
         plan = [(2, 10, "all"), (3, 40, "all"), (4, 3, "all"), (4, 30, 40), (5, 20, 30), (6, 6, 10)]
-        hplan = [(3, 200, 30), (4, 150, 30), (5, 40, 30)]
+        hplan = [(3, 200, 30), (4, 150, 30), (5, 40, 30), (9, 4, 12)]
     cases = campaign.make_cases(ctx, COMPS, "sa", plan)
     mism = campaign.run_cases(ctx, cases, ORACLES)
     mism += campaign.run_histories(ctx, COMPS, "sa", hplan, ORACLES)
+    # beyond 8 players (table-size / dtype limits of the memoised structure): the tightness oracle on the implementation alone,
+    # negative-valued families included (a stale zero is then not a valid lower bound), fresh objects and one un-reveal
+    from incomplete_cooperative.coalitions import Coalition
+    for (n9, cnt) in ([(9, 2)] if ctx.quick else [(9, 8), (10, 2)]):
+        for _ in range(cnt):
+            v9, src9 = campaign.repo_generator_game(ctx.rng, n9, campaign.SAM_GENS if ctx.rng.random() < 0.7 else campaign.SA_GENS)
+            opt9 = games.optional_ids(n9)
+            K9 = sorted(games.minimal_ids(n9) + ctx.rng.sample(opt9, ctx.rng.randint(0, 10)))
+            g9 = bl.make_game("superadditive_cached", n9, v9, K9)
+            g9.compute_bounds()
+            extra = ctx.rng.choice([i for i in opt9 if i not in K9])
+            g9.reveal_value(float(v9[extra]), Coalition(extra))
+            g9.compute_bounds()
+            g9.unreveal_value(Coalition(extra))
+            g9.compute_bounds()
+            ctx.evaluations += 1
+            ctx.count("n", n9)
+            fails = bl.oracle_tight(n9, v9, K9, bl.table_of(g9), exact=False)
+            if fails:
+                ctx.violation(f"C02 tightness oracle fails at n={n9} (superadditive_cached, {src9}) after compute, reveal {extra}, compute, "
+                              f"un-reveal, compute: {fails[:3]}",
+                              {"comp": "superadditive_cached", "n": n9, "generator": src9 + " (GENERATORS[name](n, default_rng(seed)))",
+                               "K": K9, "revealed_then_unrevealed": extra, "failures": str(fails[:5])})
+            else:
+                ctx.nontrivial.add(("big", n9, tuple(K9), src9))
     if not ctx.quick:
         sub = [c for c in cases if c["n"] <= 4 and c["stream"] == "exact"][::25][:60]
         for c in sub:
